@@ -250,6 +250,13 @@ class EbdError(ProcessorError):
         return self.error.strip("\n")
 
 
+def _dquote_escape(value):
+    """Escape the characters that stay special inside bash double quotes."""
+    for char in ("\\", '"', "$", "`"):
+        value = value.replace(char, "\\" + char)
+    return value
+
+
 def chuck_DyingInterrupt(ebp, logfile=None, *args):
     """Event handler for bash side 'die' command."""
     # read die() error message from bash side
@@ -757,13 +764,13 @@ class EbuildProcessor:
                 )
 
             if isinstance(val, (list, tuple)):
-                assign = f"{key}=({' '.join(f'[{i}]="{value}"' for i, value in enumerate(val))})"
+                assign = f"{key}=({' '.join(f'[{i}]="{_dquote_escape(value)}"' for i, value in enumerate(val))})"
             elif val.isalnum():
                 assign = f"{key}={val}"
             elif "'" not in val:
                 assign = f"{key}='{val}'"
             else:
-                assign = f"{key}=$'{val.replace("'", "\\'")}'"
+                assign = f"{key}=$'{val.replace("\\", "\\\\").replace("'", "\\'")}'"
 
             (plain if key in nonexported else exported).append(assign)
 
